@@ -31,7 +31,11 @@ func scenarioFromGen(g *Gen, prog *GProgram, layout int, r *Rand) Scenario {
 	p := &Printer{}
 	p.program(prog)
 	text, pos := Render(p.Toks, layout, r)
-	expected := gd{pos}.program(prog)
+	var bad bool
+	expected := gd{pos, &bad}.program(prog)
+	if bad {
+		expected = ""
+	}
 	bal := numscript.Balances{}
 	for a, m := range g.bal {
 		bal[a] = numscript.AccountBalance{}
